@@ -54,6 +54,54 @@ def diag_kernel(run, f, tracked):
     return n
 
 
+def diag_guards(run, f, rule='R8.diag'):
+    """Truth tables of the case analysis of pauli_diagonalize1/2 on the target qubit: nothing to do iff the operator is on-site
+    with x = 0 (it is Z); a first generator is needed iff x = 0 (commutes with Z on the target); the pivot trick iff also z = 0."""
+    i0 = f.posparams[-1]
+    tracked = f.posparams[0]
+
+    def table(test):
+        out = {}
+        for onsite in (False, True):
+            for x0 in (0, 1):
+                for z0 in (0, 1):
+                    def call(n, env, rec, onsite=onsite):
+                        if norm(n.func) == 'pauli_is_onsite' and norm(n.args[0]) == tracked:
+                            return onsite
+                        raise Undecidable('call ' + norm(n.func))
+
+                    def sub(n, env, rec, x0=x0, z0=z0):
+                        if norm(n.value) != tracked:
+                            raise Undecidable('subscript ' + norm(n))
+                        ab = affine_in(n.slice, i0)
+                        if ab == (2, 0):
+                            return x0
+                        if ab == (2, 1):
+                            return z0
+                        raise Undecidable('slot')
+                    out[(onsite, x0, z0)] = bool(ev(test, {}, call=call, sub=sub))
+        return out
+    ifs = [(st, ctx) for st, ctx in walk(f.node) if isinstance(st, ast.If)]
+    # outermost guard on the tracked string, then the nested x-slot / z-slot tests (in source order)
+    mine = [(st, ctx) for st, ctx in ifs if tracked in {n.id for n in ast.walk(st.test) if isinstance(n, ast.Name)}][:3]
+    if len(mine) < 3:
+        run.undecided(rule, f, f.name, 'case analysis on the target qubit not recognised')
+        return
+    want = [
+        (lambda o, x, z: (not o) or x == 1, 'generators are needed unless the operator is on the target qubit with x = 0 (already Z): an on-site Y or X must still be rotated'),
+        (lambda o, x, z: x == 0, 'an extra generator is needed exactly when the operator commutes with Z on the target (x slot 0)'),
+        (lambda o, x, z: z == 0, 'the pivot construction is needed exactly when the operator is trivial on the target qubit (z slot 0 as well)'),
+    ]
+    for (st, ctx), (fn, what) in zip(mine, want):
+        try:
+            tb = table(st.test)
+        except Undecidable as e:
+            run.undecided(rule, f, st.test, str(e))
+            continue
+        bad = [k for k, v in tb.items() if v != fn(*k)]
+        run.check(not bad, rule, f, st.test, '%s; the test differs on (onsite, x, z) = %s' % (what, bad[:3]))
+
+
 def check(run):
     repo = run.repo
     eff = K.effects_of(repo)
@@ -122,10 +170,17 @@ def check(run):
             if isinstance(c, ast.Call) and norm(c.func).split('.')[-1] == 'masked_select' and len(c.args) == 2:
                 run.check(parallel._is_expansion(c.args[1]), 'R13.mask', cf, c, 'the support mask must be expanded to the interleaved (x,z) columns with repeat_interleave(mask, 2)')
         # kernels
+        if pkg == 'pyclifford' or True:
+            diag_guards(run, repo.func(urel, 'pauli_diagonalize1'))
+            diag_guards(run, repo.func(urel, 'pauli_diagonalize2'))
         diag_kernel(run, repo.func(urel, 'pauli_diagonalize1'), ['g1'])
         diag_kernel(run, repo.func(urel, 'pauli_diagonalize2'), ['g1', 'g2'])
         K.product_sites(run, repo.func(urel, 'pauli_diagonalize1'), floor=2)
         K.product_sites(run, repo.func(urel, 'pauli_diagonalize2'), floor=5)
+    # the returned circuits are packed by take(): packing is only order-preserving with the right independence predicates
+    from .C09 import independence
+    independence(run, repo, 'pyclifford')
+    independence(run, repo, 'torchclifford')
     # SBRG (pyclifford only)
     sb = repo.func(K.PY_C, 'SBRG')
     effect.check_pure(run, eff, sb)
@@ -170,6 +225,8 @@ def check(run):
     run.floor('R2.encode', 6)
     run.floor('R2.gate', 8)
     run.floor('R7.mirror', 10)
+    run.floor('R8.diag', 12)
+    run.floor('R11.indep', 4)
     run.floor('R10.sbrg', 4)
     run.floor('R13.sbrg', 3)
     run.floor('R13.mask', 2)
